@@ -2,8 +2,12 @@
 
    T ranges over integer ctypes (size in bytes, signedness, _Bool flag; an enum is its base type);
    wf_ity T: 1 <= size <= 8 and _Bool is unsigned.  v ranges over ALL Python ints (Z).
-   Memory paths (ffi.new initializer, item, field, global, ABI argument buffer) all go through
-   convert_from_object; API-mode arguments through _cffi_to_c_int / _cffi_to_c__Bool whose range
+   Memory paths (ffi.new initializer, item, field, ABI- and API-mode global, ABI argument buffer)
+   all call convert_from_object on the address of the location (they differ only in how that
+   address is computed, which is C16/C20's subject; C03_store_frame states the store at an
+   offset of a larger object); enum ctypes carry CT_PRIMITIVE_SIGNED/UNSIGNED of their base type
+   and convert_from_object never looks at CT_IS_ENUM, so an enum is the ity of its base type
+   (tied by the correspondence run over five enums); API-mode arguments through _cffi_to_c_int / _cffi_to_c__Bool whose range
    tests are regenerated from the source text (C03/Gen.v) and evaluated with C semantics. *)
 From Coq Require Import ZArith List Bool String Lia.
 From Cffi Require Import C03.CExpr C03.Gen C03.Model C03.Proofs.
@@ -23,6 +27,35 @@ Theorem C03_roundtrip : forall T v, wf_ity T -> in_range T v = true ->
   read_int T (encode_int T v) = v.
 Proof. exact read_encode. Qed.
 Print Assumptions C03_roundtrip.
+
+(* the store inside a larger object (array item, struct field, global, argument buffer): nothing
+   outside the ct_size bytes at the target offset changes, whatever the outcome *)
+Theorem C03_store_frame : forall T v off mem, wf_ity T -> (off + isize T <= List.length mem)%nat ->
+  let r := store_at T v off mem in
+  List.length (snd r) = List.length mem /\
+  (forall j d, (j < off \/ off + isize T <= j)%nat -> nth j (snd r) d = nth j mem d) /\
+  (if in_range T v then fst r = Ok tt /\ unit_at off (isize T) (snd r) = encode_int T v
+   else r = (Err OverflowError, mem)).
+Proof. exact store_at_frame. Qed.
+Print Assumptions C03_store_frame.
+
+(* "or the value the C function received": whoever reads the stored bytes as a T gets v *)
+Theorem C03_store_received : forall T v data bs, wf_ity T ->
+  convert_from_object_int T v data = (Ok tt, bs) -> read_int T bs = v /\ in_range T v = true.
+Proof. exact store_received. Qed.
+Print Assumptions C03_store_received.
+
+(* objects that are not ints (not in the property's quantifier; the code's branches for them):
+   floats and objects without __int__ raise TypeError and leave the target unchanged, an object
+   with __int__ is treated as the int it returns *)
+Theorem C03_store_obj_exact : forall T o data, wf_ity T ->
+  store_obj T o data =
+  match o with
+  | PInt v | PIntLike v => if in_range T v then (Ok tt, encode_int T v) else (Err OverflowError, data)
+  | PFloat | PNoInt => (Err TypeError, data)
+  end.
+Proof. exact store_obj_exact. Qed.
+Print Assumptions C03_store_obj_exact.
 
 (* the regenerated macro bounds are 2^(N-1)-1, -2^(N-1) and 2^N-1, of the types the comparison
    with `tmp` needs, for every instantiated SIZE; no C undefined behaviour in evaluating them *)
